@@ -792,6 +792,8 @@ class Replayer:
             if cls != "ok":
                 fails.append("fit_curve raised")
                 return
+            if (b and b["W"]) or t["pre"][a["obj"]]["W"]:
+                return      # the L2 clauses are stated for polynomial spline spaces; rational sources are only executed
             try:
                 err = rat(val["err"]) if not isinstance(val["err"], float) else rat(Fraction(val["err"]))
             except TypeError:
